@@ -186,9 +186,15 @@ def run(prog, rep):
                        and u.types[g.params[0]["t"]].get("k") == "ptr" and u.types[u.types[g.params[0]["t"]]["p"]].get("rec") == erec]
                 if not dfs:
                     continue
-                fv_ = fr.inlined()
                 used = False
-                for (b, i, n) in fv_.nodes(elsewhere=True):
+                clo_, todo_ = [], [fr.name]
+                while todo_:
+                    nm_ = todo_.pop()
+                    if nm_ in clo_ or nm_ not in u.functions or nm_ in dfs:
+                        continue
+                    clo_.append(nm_)
+                    todo_ += [c.get("callee") for (b, i, c) in u.functions[nm_].calls() if c.get("callee")]
+                for (b, i, n) in [x for nm_ in clo_ for x in u.functions[nm_].nodes(elsewhere=True)]:
                     if n["k"] == "call" and n.get("callee") in dfs:
                         used = True
                     if n["k"] == "call" and n.get("callee") == "p_list_foreach" and any(x["k"] == "ref" and x["name"] in dfs for a in n["args"][1:2] for x in walk(a, elsewhere=True)):
